@@ -439,7 +439,8 @@ pub fn checks_for(prop: &str) -> Checks {
         "C01" => Checks { c01: true, ..Default::default() },
         "C05" => Checks { c05: true, ..Default::default() },
         "C06" => Checks { c06: true, ..Default::default() },
-        "C12" => Checks { c12: true, ..Default::default() },
+        // C12's inert clause runs the C01 and C06 oracles with decoys on
+        "C12" => Checks { c12: true, c01: true, c06: true, c05: false },
         _ => Checks { c01: true, c05: true, c06: true, c12: true },
     }
 }
